@@ -55,6 +55,14 @@ def configs(tier):
         else:
             c["depth"] = 8 if c["engine"] == "joblib" else 3
             c["max_states"] = 1500 if c["engine"] == "joblib" else 150
+    # integer-valued results (a cell that was never harvested cannot be an
+    # integer: the grid turns to floats as soon as it has gaps)
+    cs.append({"name": "ints", "engine": "joblib", "kind": "int",
+               "depth": 3 if tier == "quick" else 4,
+               "max_states": 40 if tier == "quick" else 400})
+    if tier == "thorough":
+        cs.append({"name": "ints", "engine": "h5netcdf", "kind": "int",
+                   "depth": 3, "max_states": 100})
     # harvesters that keep their full dataset lazily (dask-backed, reading
     # from the file on demand)
     cs.append({"name": "lazy", "engine": "h5netcdf", "chunks": 1,
@@ -151,7 +159,8 @@ class World:
 
         self.cfg, self.d = cfg, d
         # (c defaults to the label the data is later expanded to)
-        self.fs = [xfn.make_fn(["a", "b", "c"], kind="num", name="f05",
+        self.fs = [xfn.make_fn(["a", "b", "c"], kind=cfg.get("kind", "num"),
+                               name="f05",
                                version=v, defaults={"c": 5}) for v in (0, 1)]
         self.path = os.path.join(d, cfg["name"])
         self.model = Model()
@@ -174,7 +183,8 @@ class World:
                              chunks=self.cfg.get("chunks"))
 
     def val(self, ver, a, b, c):
-        return xfn.expected("num", dict(a=a, b=b, c=5 if c is None else c), ver)
+        return xfn.expected(self.cfg.get("kind", "num"),
+                            dict(a=a, b=b, c=5 if c is None else c), ver)
 
     def new_cells(self, pts, ver, c):
         exp = self.model.expanded
